@@ -323,6 +323,8 @@ class BuiltinModelLoaderGen(ModelLoaderGen):
                     has_skipped_params = True
                     continue
                 if self._is_packed_field(field):
+                    # packed field is passed via **packed_fields, so all next parameters must be passed by keyword
+                    has_skipped_params = True
                     continue
 
                 value = state.v_field(field)
